@@ -38,6 +38,7 @@ func normSig(sig string) string {
 type c02Variant struct {
 	base       int // index of the base function
 	mask       int // erased parameters
+	annotRet   bool // the result type is annotated (`let f a b : T = ...`)
 	src        string
 	name       string
 	params     []string
@@ -296,7 +297,7 @@ func runC02(r *core.Run, tier string) {
 	if tier == "thorough" {
 		nProg, perProg = 750, 4
 	}
-	r.Rule("a case is one variant of one function: functions are generated from the constructs for which inference is promised (arithmetic / comparison / = with a typed operand, calls to library and earlier user functions with known signatures, record and union construction, tuples, slices, destructuring lets, pipes, function-typed parameters applied once) with every parameter annotated; for a function with k parameters all 2^k subsets of annotations are erased (k <= 4); each variant is transpiled alone (after its fixed prelude) and the emitted signature, extracted with go/parser, is compared with the translation of the principal type computed by an independent Hindley-Milner inference (type parameters T0.. by first occurrence in parameters then result, constraint any); where erasure leaves the principal type unchanged the whole emitted declaration must be byte-identical to the annotated one; the fully annotated packages are type-checked by go build; programs calling one generic function at two different instantiations are compiled, run and compared with the expected output; non-trivial = at least one annotation erased; distinct by variant source hash")
+	r.Rule("a case is one variant of one function: functions are generated from the constructs for which inference is promised (arithmetic / comparison / = with a typed operand, calls to library and earlier user functions with known signatures, record and union construction, tuples, slices, destructuring lets, pipes, function-typed parameters applied once) with every parameter annotated; for a function with k parameters all 2^k subsets of annotations are erased (k <= 4), each with and without an annotation of the result type; each variant is transpiled alone (after its fixed prelude) and the emitted signature, extracted with go/parser, is compared with the translation of the principal type computed by an independent Hindley-Milner inference (type parameters T0.. by first occurrence in parameters then result, constraint any); where erasure leaves the principal type unchanged the whole emitted declaration must be byte-identical to the annotated one; the fully annotated packages are type-checked by go build; programs calling one generic function at two different instantiations are compiled, run and compared with the expected output; non-trivial = at least one annotation erased; distinct by variant source hash")
 	r.Assume("bodies stay inside the list of constructs the documentation promises inference for (no match, no if, no field access on unannotated values, no lambdas)", "the independent inference is textbook unification with generalisation at top-level definitions")
 	var variants []*c02Variant
 	type baseInfo struct {
@@ -348,7 +349,10 @@ func runC02(r *core.Run, tier string) {
 			if isSubject && len(f.Params) <= 4 {
 				bi := len(bases)
 				k := len(f.Params)
-				for mask := 0; mask < 1<<k; mask++ {
+				for mask2 := 0; mask2 < 2<<k; mask2++ {
+					// the top bit of mask2 = result annotation present (never on the base variant's turn first:
+					// the un-annotated-result variants come first so that mask 0 / no result annotation is the base)
+					mask, annotRet := mask2&(1<<k-1), mask2>>k == 1
 					// a fresh inferer per variant: earlier functions keep their annotated schemes
 					inv := hm.New(prog)
 					for dj := 0; dj < di; dj++ {
@@ -365,19 +369,21 @@ func runC02(r *core.Run, tier string) {
 						vf.Params[i].NoAnnot = mask>>i&1 == 1
 						pnames = append(pnames, vf.Params[i].Name)
 					}
-					v := &c02Variant{base: bi, mask: mask, name: f.Name, params: pnames}
+					vf.AnnotRet = annotRet
+					v := &c02Variant{base: bi, mask: mask, annotRet: annotRet, name: f.Name, params: pnames}
 					sc, err := inv.InferFunc(&vf)
+					isBase := mask == 0 && !annotRet
 					if err != nil {
 						v.hmErr = err.Error()
 					} else {
 						v.want = normSig(hm.GoSignature(f.Name, pnames, sc))
-						if mask == 0 {
+						if isBase {
 							bases = append(bases, baseInfo{prog, f, di, sc})
-						} else if len(bases) > bi {
+						} else if len(bases) > bi && bases[bi].scheme != nil {
 							v.sameAsBase = hm.Equal(sc, bases[bi].scheme)
 						}
 					}
-					if mask == 0 && err != nil {
+					if isBase && err != nil {
 						bases = append(bases, baseInfo{prog, f, di, nil})
 					}
 					vp := &fo.Program{Pkg: pkg, Imports: prog.Imports, Decls: append(append([]fo.Decl{}, prog.Decls[:di]...), &vf)}
@@ -439,15 +445,18 @@ func runC02(r *core.Run, tier string) {
 	})
 	baseDecl := map[int]string{}
 	for _, v := range variants {
-		if v.mask == 0 {
+		if v.mask == 0 && !v.annotRet {
 			baseDecl[v.base] = v.decl
 		}
 	}
 	var nGeneric, nRedundant, nMoreGeneral, nSkipped int
 	for _, v := range variants {
-		r.Eval(core.Hash(v.src), v.mask != 0)
+		r.Eval(core.Hash(v.src), v.mask != 0 || v.annotRet)
 		files := map[string]string{"x.fo": v.src, "gen_x.go": v.gen, "diag.txt": v.diag, "expected_signature.txt": v.want + "\n", "emitted_signature.txt": v.got + "\n"}
 		tag := fmt.Sprintf("%s erased-params-mask=%d", v.name, v.mask)
+		if v.annotRet {
+			tag += " result-annotated"
+		}
 		if v.hmErr != "" {
 			nSkipped++
 			continue
@@ -463,14 +472,14 @@ func runC02(r *core.Run, tier string) {
 		case v.got != v.want:
 			r.Violate("signature:"+core.Hash(v.src), fmt.Sprintf("%s: emitted `%s`, the principal type gives `%s`", tag, v.got, v.want), files)
 		default:
-			if v.mask != 0 && v.sameAsBase {
+			if (v.mask != 0 || v.annotRet) && v.sameAsBase {
 				nRedundant++
 				if v.decl != baseDecl[v.base] {
 					files["annotated_decl.go"] = baseDecl[v.base]
 					files["erased_decl.go"] = v.decl
 					r.Violate("redundant-annotation-changes-code:"+core.Hash(v.src), "erasing annotations that the body already determines changes the emitted code ("+tag+")", files)
 				}
-			} else if v.mask != 0 {
+			} else if v.mask != 0 || v.annotRet {
 				nMoreGeneral++
 			}
 		}
